@@ -420,6 +420,89 @@ func checkC09(c *Check) {
 		c.HoldConst("K3c", "no-skip-counter", token.NoPos, true, "")
 	}
 
+	// ---- K5: a failure of one atomic target is reported for exactly that target's recipients
+	c.Rule("K5", "pipeline per-recipient body path: when an atomic target's Body fails, the error is reported for that target's complete recipient list and for no other target's recipients", 1)
+	if r := c.In(pipelineRel, "msgpipelineDelivery", "BodyNonAtomic"); r != nil {
+		info := r.Info
+		msg := "no fan-out over the started target deliveries"
+		for _, rs := range rangesIn(r.FI.Decl.Body, func(rs *ast.RangeStmt) bool { return isField(info, rs.X, "msgpipelineDelivery", "deliveries") }) {
+			lv := objOf(info, rs.Value)
+			if lv == nil {
+				continue
+			}
+			// the Body call on the loop variable
+			var bodyPt Pt
+			var bodyCall *ast.CallExpr
+			for _, pt := range r.F.Points() {
+				nd := pt.Node()
+				if nd == nil || !posIn(rs.Body, nd.Pos()) {
+					continue
+				}
+				for _, call := range callsAt(nd) {
+					if methodName(call) == "Body" && recvObj(info, call) == lv {
+						bodyPt, bodyCall = pt, call
+					}
+				}
+			}
+			if bodyCall == nil {
+				continue
+			}
+			msg = ""
+			eo := errVarAssigned(info, bodyPt.Node(), bodyCall)
+			if eo == nil {
+				msg = "the error of an atomic target's Body is dropped"
+				break
+			}
+			// closures that report for all deliveries
+			allReporters := map[types.Object]bool{}
+			ast.Inspect(r.FI.Decl.Body, func(n ast.Node) bool {
+				if as, ok := n.(*ast.AssignStmt); ok && len(as.Lhs) == 1 && len(as.Rhs) == 1 {
+					if fl, ok := as.Rhs[0].(*ast.FuncLit); ok {
+						for range rangesIn(fl.Body, func(rs2 *ast.RangeStmt) bool { return isField(info, rs2.X, "msgpipelineDelivery", "deliveries") }) {
+							allReporters[objOf(info, as.Lhs[0])] = true
+						}
+					}
+				}
+				return true
+			})
+			iterEnd := func(pt Pt) bool {
+				return (pt.B.Stmt == ast.Stmt(rs) && (pt.B.Kind == kindRangeLoop || pt.B.Kind == kindRangeDone) && pt.I == 0) || r.F.IsExitPt(pt)
+			}
+			// on the error edge: a report loop over <lv>.recipients must be passed before the iteration ends
+			ownLoopX := func(pt Pt) bool {
+				nd := pt.Node()
+				for _, rs2 := range rangesIn(rs.Body, func(rs2 *ast.RangeStmt) bool { return rs2.X == nd }) {
+					if sx, ok := ast.Unparen(rs2.X).(*ast.SelectorExpr); ok && objOf(info, sx.X) == lv && sx.Sel.Name == "recipients" {
+						reports := false
+						ast.Inspect(rs2.Body, func(x ast.Node) bool {
+							if call, ok := x.(*ast.CallExpr); ok && methodName(call) == "SetStatus" && len(call.Args) == 2 && objOf(info, call.Args[0]) == objOf(info, rs2.Value) && objOf(info, call.Args[1]) == eo {
+								reports = true
+							}
+							return true
+						})
+						return reports
+					}
+				}
+				return false
+			}
+			foreign := func(pt Pt) bool {
+				for _, call := range callsAt(pt.Node()) {
+					if id, ok := call.Fun.(*ast.Ident); ok && allReporters[objOf(info, id)] {
+						return true
+					}
+				}
+				return false
+			}
+			if path, f := r.F.ReachRefined(bodyPt, eo, false, false, iterEnd, ownLoopX); f {
+				msg = "a failure of one target's Body can be left unreported for that target's recipients: " + r.F.Describe(path)
+			}
+			if path, f := r.F.ReachRefined(bodyPt, eo, false, false, foreign, iterEnd); f {
+				msg = "a failure of one target's Body is reported for the recipients of every target: a recipient whose own target accepted (and will commit) the message is told it failed – the client retries and the message is delivered twice: " + r.F.Describe(path)
+			}
+		}
+		c.Hold("K5", "msgpipelineDelivery.BodyNonAtomic:per-target-failure", r.FI.Decl.Pos(), msg == "", msg)
+	}
+
 	// ---- K6: the per-connection fan-out of the remote target covers every accepted recipient: connections that carry
 	// accepted recipients are never removed from the delivery before its results were reported
 	c.Rule("K6", "the remote target reports per-recipient results by iterating its connections: a connection is never removed from the delivery (other than by ending it), so every accepted recipient is covered", 1)
